@@ -50,6 +50,7 @@ type req struct {
 	Status int    `json:"status,omitempty"`
 	Body   string `json:"body,omitempty"`
 	Trunc  bool   `json:"trunc,omitempty"`
+	Over   string `json:"over,omitempty"` // trunc: the response announces len(body)+over bytes (decimal; default 10)
 	Limit  *string `json:"limit,omitempty"`
 	CLen   *int64 `json:"clen,omitempty"`
 }
